@@ -105,6 +105,17 @@ def retie(rng, flat, p_tie):
     return out
 
 
+def retie_mask(flat, mask):
+    """mask[i] = 1: flat[i+1] is tied with flat[i]"""
+    out = [[flat[0]]]
+    for x, tie in zip(flat[1:], mask):
+        if tie:
+            out[-1].append(x)
+        else:
+            out.append([x])
+    return out
+
+
 def random_source(rng):
     m = rng.randint(2, 7)
     alts = rng.sample(range(1, 40), m)
@@ -178,6 +189,25 @@ def generate(tier, seed):
             out.append(fo_case([(o, 2)], nic=t, alts=[1, 2, 3, 4], exh=1))
         for r in rels:
             out.append(fo_case([(o, 2)], rel=r, alts=[1, 2, 3, 4], exh=1))
+    # every complete weak order over 5 alternatives x two or three absolute truncators: all the ways in which an
+    # indifference class can overshoot a truncation point while another truncator follows
+    tl5 = trunc_lists([1, 2, 3], 2)[3:] if quick else trunc_lists([1, 2, 3], 3)[3:]
+    for o in weak_orders([0, 1, 2, 3, 4]):
+        for t in tl5:
+            out.append(fo_case([(o, 3)], st=t, alts=[0, 1, 2, 3, 4], exh=1))
+    out.append(fo_case([([[0], [1, 2], [3], [4]], 2)], st=[2, 2], exh=1))
+    out.append(fo_case([([[0, 1], [2]], 1)], st=[1, 1], exh=1))
+    # same flattening, different tie structure, DIFFERENT multiplicities, one truncator: collapses in all three modes
+    for m in range(2, 5 if quick else 6):
+        flat = list(range(1, m + 1))
+        ties = [retie_mask(flat, mask) for mask in itertools.product([0, 1], repeat=m - 1)]
+        for o1, o2 in itertools.permutations(ties, 2):
+            src = [(o1, 2), (o2, 5)]
+            for t in range(1, m + 1):
+                out.append(fo_case(src, st=[t], alts=flat, exh=1))
+                out.append(fo_case(src, nic=[t], alts=flat, exh=1))
+            for r in ([1.0], [0.5, 0.5], [1, 1, 2]):
+                out.append(fo_case(src, rel=r, alts=flat, exh=1))
     # ---- random, collapse-prone ------------------------------------------------------------------------------
     nrand = 3000 if quick else 40000
     for i in range(nrand):
@@ -389,6 +419,21 @@ def _mode(c):
     return ["classes", "sizes", "relative"][k.index(True)]
 
 
+def _overshoot(o, ts):
+    """some category exceeds its truncation point while alternatives remain and another truncator follows"""
+    idx = 0
+    for j, t in enumerate(ts):
+        size = 0
+        while size < t and idx < len(o):
+            size += len(o[idx])
+            idx += 1
+        if idx >= len(o):
+            return False
+        if size > t and j + 1 < len(ts):
+            return True
+    return False
+
+
 def stats(c, r, mres):
     m = mres[0]
     if c["op"] == "c17.factorise":
@@ -408,6 +453,21 @@ def stats(c, r, mres):
            "from_ordinal num_categories=%d" % m[1][4]]
     if any(b and b[-1] == [] for b in m[1][0]):
         lab.append("from_ordinal some ballot padded")
+    pl = c["payload"]
+    src = pl[2]
+    if _mode(c) == "sizes" and any(_overshoot(o, pl[4][0]) for o, _ in src):
+        lab.append("from_ordinal sizes: a class overshoots t_j, another truncator follows")
+    if _mode(c) == "relative" and any(_overshoot(o, [tab[len(o)] for tab in pl[5][0]]) for o, _ in src):
+        lab.append("from_ordinal relative: a class overshoots t_j, another truncator follows")
+    if len(m[1]) > 8:
+        groups = {}
+        for (o, mu), b in zip(src, m[1][8]):
+            groups.setdefault(tup2(b), []).append(mu)
+        gmax = max(len(g) for g in groups.values())
+        if gmax > 1:
+            lab.append("from_ordinal %s: largest collapse group=%d" % (_mode(c), min(gmax, 4)))
+        if any(len(set(g)) > 1 for g in groups.values()):
+            lab.append("from_ordinal %s: collapse merges DIFFERENT multiplicities" % _mode(c))
     return lab
 
 
